@@ -49,10 +49,10 @@ def strategy_case(draw):
         case["B"] = draw(gen.tt_spec(N=draw(gen.modes(d2, d2, (1, 2, 3), maxnumel=9)),
                                      M=draw(gen.modes(d2, d2, (1, 2, 3), maxnumel=9)), dt=dt, mode=mode, rmax=3))
     elif op in ("sadd", "ssub"):
-        kinds = ["int", "float", "npfloat64", "t0d", "t1"] + (["complex"] if core.is_complex(dt) else [])
+        kinds = ["int", "float", "npfloat64", "t0d", "t1", "t0d_i64", "t0d_other"] + (["complex"] if core.is_complex(dt) else [])
         case["s"] = draw(gen.scalar(kinds))
     elif op in ("smul",):
-        kinds = ["int", "float", "npfloat64", "t0d", "t1"] + (["complex"] if core.is_complex(dt) else [])
+        kinds = ["int", "float", "npfloat64", "t0d", "t1", "t0d_i64", "t0d_other"] + (["complex"] if core.is_complex(dt) else [])
         case["s"] = draw(gen.scalar(kinds))
     elif op in ("rsub", "rmul"):
         kinds = ["int", "float"] + (["complex"] if core.is_complex(dt) else [])
@@ -195,8 +195,11 @@ def execute(case):
     else:
         s = case["s"]
         sv = gen.build_scalar(s, dt)
-        sc = gen.scalar_as_complex(s)
+        sc = gen.scalar_exact_value(s, dt)
         ck.label("scalar:" + s["kind"])
+        if not gen.is_dyadic(s):
+            exact = False
+            ck.label("scalar_not_dyadic")
         one = torch.ones_like(Aa)
         if op == "sadd":
             res = lib(lambda: A + sv); ref = Ad + sc; ref_abs = Aa + abs(sc) * one
